@@ -13,6 +13,8 @@ pub mod mem;
 pub mod shell;
 pub mod system;
 pub mod timing;
+#[cfg(gb_dynarec_verif)]
+pub mod verif;
 
 use std::env;
 use shell::Shell;
